@@ -42,6 +42,23 @@ def run(c, chk):
         raise report.Broken('the leaf comparison routine was not found')
     else:
         chk.ok('R11.1', 'name comparisons', 'only in %s' % sorted(comparers), sample=True)
+    # a step of a path must match a whole option name: a length-limited comparison needs an end-of-name test
+    for f in mod.funcs.values():
+        for call in list(f.calls('strncmp')) + list(f.calls('strncasecmp')) + list(f.calls('memcmp')):
+            if not any(loads_field(f, a, '%struct.cfg_opt_t', 'name') for a in call.args):
+                continue
+            ends = False
+            for ins in f.instrs():
+                if ins.op == 'call' and ins.callee_name() == 'strlen' and any(loads_field(f, a, '%struct.cfg_opt_t', 'name') for a in ins.args):
+                    ends = True
+                if ins.op == 'load' and ins.ops[0].kind == 'reg':
+                    g = f.defs.get(ins.ops[0].name)
+                    if g is not None and g.op == 'getelementptr' and loads_field(f, g.ops[0], '%struct.cfg_opt_t', 'name') and g.ops[-1].kind == 'reg':
+                        ends = True         # name[len] is read (to be compared with the terminator)
+            if not ends:
+                chk.fail('R11.1', 'prefix-match:%s' % sorted(c.owners(f.name))[0], c.where(call),
+                         '%s() compares only the first len characters of an option name with a path step and never checks that the name ends there: '
+                         'a step "net" also selects an option called "network"' % f.name)
     leaf_callers = sorted(set(o for f in c.all_funcs() for _ in f.calls('cfg_getopt_leaf') for o in c.owners(f.name)))
     if leaf_callers != ['cfg_getopt_secidx']:
         chk.fail('R11.1', 'leaf-callers:%s' % ','.join(leaf_callers), c.where(c.need('cfg_getopt_leaf')), 'the leaf lookup is called from %s, not only from the resolver' % leaf_callers)
@@ -126,32 +143,72 @@ def run(c, chk):
     # ---- R11.3 ------------------------------------------------------------------------------
     ex = sym.Explorer(c.modules, max_visits=2, mod_sets=c.mod_sets, max_paths=100000)
     nloops = 0
-    for fname, cursor in (('cfg_getopt_secidx', 'name'), ('cfg_getopt_array', 'name'), ('parse_title', 'ch')):
+    chk.rule('R11.6', 'a tokenizer cursor never steps over a byte that was not shown to be different from the terminator')
+    nsteps = 0
+    for fname, prefer in (('cfg_getopt_secidx', 'name'), ('cfg_getopt_array', 'name'), ('parse_title', 'ch')):
         f = c.need(fname)
-        done = False
-        for h in _loops.loops_over(f, cursor):
-            done = True
+        heads = sorted(_cfg.natural_loops(f))
+        if not heads:
+            raise report.Broken('%s(): no loop found' % fname)
+        for h in heads:
+            paths = [p for p in _loops.iterate(ex, f, h) if p.end == 'stop']
+            if not paths:
+                continue
+            # the cursor of this loop: a loop-carried pointer that every path back to the head moves forward
+            cands = set()
+            for p in paths:
+                cands |= set(k for k in p.next if not k.startswith('%'))
+            cursors = [v for v in sorted(cands) if all(advances(p, p.next.get(v), ('p', v)) for p in paths)]
             nloops += 1
-            npaths = 0
-            bad = None
-            for p in _loops.iterate(ex, f, h):
-                if p.end != 'stop':
-                    continue
-                npaths += 1
-                nxt = p.next.get(cursor)
-                why = advances(p, nxt, ('p', cursor))
-                if not why:
-                    bad = (p, nxt)
-            if bad:
-                p, nxt = bad
+            if not cursors:
+                v = prefer if prefer in cands else (sorted(cands)[0] if cands else '?')
+                p = next(p for p in paths if not advances(p, p.next.get(v), ('p', v)))
+                nxt = p.next.get(v)
                 chk.fail('R11.3', 'no-progress:%s' % fname, c.where(f, f.blocks[h].first_line()),
                          '%s(): on a path back to the loop head the cursor becomes %s, which is not provably beyond its old position: '
                          'a path string can make the lookup loop forever' % (fname, sym.render(nxt) if nxt else '?'),
                          witness=['path condition: ' + fp.cond_text(p, 6)])
-            else:
-                chk.ok('R11.3', '%s: cursor loop' % fname, '%d paths to the back edge, each advances by a constant >= 1, a non-zero length or a matching strspn()' % npaths, sample=True)
-        if not done:
-            raise report.Broken('%s(): cursor loop over "%s" not found' % (fname, cursor))
+                continue
+            chk.ok('R11.3', '%s: cursor loop (%s)' % (fname, ', '.join(cursors)), '%d paths to the back edge, each advances by a constant >= 1, a non-zero length or a matching strspn()' % len(paths), sample=True)
+            # R11.6: constant steps only over bytes known to differ from NUL
+            vtypes = _loops.var_types(f, h)
+            for v in cursors:
+                if vtypes.get(v) != 'i8*':
+                    continue          # a counter, not a position in the text
+                base = ('p', v)
+                def reads_under(p_):
+                    return any(sym.mentions(cn, lambda x: x[0] == 'ld' and flatten(x[1], base) is not None) for cn, t, _ in p_.assume)
+                if not any(reads_under(p_) for p_ in paths):
+                    continue          # a write position: nothing is read through it
+                for p in paths:
+                    terms = flatten(p.next.get(v), base) or []
+                    k = sum(t[1] for t in terms if sym.is_const(t))
+                    if k <= 0:
+                        continue
+                    nsteps += 1
+                    shown = set()
+                    for cn, t, _ in p.assume:
+                        if cn[0] != 'icmp' or cn[1] not in ('eq', 'ne') or not sym.is_const(cn[3]):
+                            continue
+                        x = cn[2]
+                        while x[0] == 'bin' and x[1] in ('sext', 'zext', 'trunc'):
+                            x = x[2]
+                        if x[0] != 'ld':
+                            continue
+                        pos = flatten(x[1], base)
+                        if pos is None:
+                            continue
+                        nonzero = (cn[1] == 'ne' and cn[3][1] == 0 and t) or (cn[1] == 'eq' and cn[3][1] != 0 and t) or (cn[1] == 'eq' and cn[3][1] == 0 and not t)
+                        if nonzero:
+                            shown.add(tuple(sorted(repr(sym.norm(y)) for y in pos)))
+                    if len(shown) < k:
+                        chk.fail('R11.6', 'steps-over-terminator:%s' % fname, c.where(f, f.blocks[h].first_line()),
+                                 '%s(): on a path back to the loop head the cursor %s moves %d byte(s) forward but only %d byte(s) under it were shown to differ from the '
+                                 'terminating NUL (a character class test like strchr() also matches the terminator): the tokenizer can run past the end of the path string'
+                                 % (fname, v, k, len(shown)), witness=['path condition: ' + fp.cond_text(p, 8)])
+                        break
+    if nsteps:
+        chk.ok('R11.6', '%d constant cursor steps' % nsteps, 'each covered by as many bytes compared with NUL / a non-NUL character on that path', sample=True)
     chk.floor('R11.3 cursor loops', nloops, 3)
 
     # ---- R11.5: qualifiers ------------------------------------------------------------------------
